@@ -199,6 +199,42 @@ pub fn run_c19(tier: Tier, seed: u64) -> i32 {
         } else if sorted.windows(2).any(|w| w[0] == w[1]) {
             violation = Some(crc_fail("double-bit-undetected", &[], "two single-bit syndromes coincide: some double-bit error is undetected".into()));
         }
+        // the same single-bit errors on realistic payloads (erased, blank, alternating, seeded): the
+        // checksum must follow the reference exactly and differ from the undamaged block's
+        if violation.is_none() {
+            let mut fills: Vec<[u8; 512]> = vec![[0xFFu8; 512], [0x00u8; 512], [0xAAu8; 512], [0x55u8; 512]];
+            let mut seeded = [0u8; 512];
+            let mut x: u32 = 0x9E37_79B9;
+            for b in seeded.iter_mut() {
+                x ^= x << 13;
+                x ^= x >> 17;
+                x ^= x << 5;
+                *b = x as u8;
+            }
+            fills.push(seeded);
+            'fills: for base in fills.iter() {
+                let good = crc16(base);
+                if good != ref_crc16(base) {
+                    violation = Some(crc_fail("crc16-mismatch", base, format!("crc16 = {:#06x}, reference {:#06x}", good, ref_crc16(base))));
+                    break;
+                }
+                for bit in 0..4096usize {
+                    let mut m = *base;
+                    m[bit / 8] ^= 0x80 >> (bit % 8);
+                    let c = crc16(&m);
+                    err_patterns += 1;
+                    if c != ref_crc16(&m) {
+                        violation = Some(crc_fail("crc16-mismatch", &m, format!("block filled with {:#04x}.. and bit {} flipped: crc16 = {:#06x}, reference {:#06x}", base[0], bit, c, ref_crc16(&m))));
+                        break 'fills;
+                    }
+                    if c == good {
+                        violation = Some(crc_fail("single-bit-undetected", &m, format!("flipping bit {} of a block filled with {:#04x}.. leaves the checksum at {:#06x}", bit, base[0], good)));
+                        break 'fills;
+                    }
+                }
+            }
+            acc.class("single-bit-errors-on-filled-blocks");
+        }
         // bursts of length <= 16: pattern p (bit 15 set = burst starts here) at bit position pos
         if violation.is_none() {
             let positions: Vec<usize> = match tier {
@@ -871,6 +907,8 @@ pub fn unit_class() -> BoxedStrategy<u16> {
         1 => Just(0xFFFDu16),
         1 => Just(0xFFFEu16),
         1 => (0xE000u16..0xFFFD),
+        // the ends of the surrogate ranges and their neighbours
+        1 => prop_oneof![Just(0xD7FFu16), Just(0xD800u16), Just(0xDBFFu16), Just(0xDC00u16), Just(0xDFFFu16), Just(0xE000u16)],
     ]
     .boxed()
 }
@@ -988,6 +1026,49 @@ pub fn c17a_boundary_enumeration(known: &[runner::KnownFinding], acc: &mut Acc) 
                             acc.shape(&(a, b, c, d, full, size));
                         }
                     }
+                }
+            }
+        }
+    }
+    // the ends of the two surrogate ranges, as a pair split across the fragment boundary, as a pair
+    // inside a fragment, and in the wrong order
+    for hi in [0xD800u16, 0xD801, 0xDBFE, 0xDBFF] {
+        for lo in [0xDC00u16, 0xDC01, 0xDFFE, 0xDFFF] {
+            for shape in 0..4 {
+                let mut f1 = [0x61u16; 13];
+                let mut f2 = [0x62u16; 13];
+                match shape {
+                    0 => {
+                        f1[12] = hi;
+                        f2[0] = lo;
+                    }
+                    1 => {
+                        f1[11] = hi;
+                        f1[12] = lo;
+                    }
+                    2 => {
+                        f1[12] = lo;
+                        f2[0] = hi;
+                    }
+                    _ => {
+                        f2[0] = hi;
+                        f2[1] = lo;
+                    }
+                }
+                let frags = vec![f1, f2];
+                let need = lfnbuf_expected(&frags).len();
+                for size in [need, 780] {
+                    let case = LfnBufCase { frags: frags.clone(), size: size as u16 };
+                    acc.evaluations += 1;
+                    acc.class("surrogate-range-ends");
+                    if let Err(f) = lfnbuf_check(&case) {
+                        if is_open_known(known, "C17", &f.sig) {
+                            acc.known(&f.sig);
+                            continue;
+                        }
+                        return Some((f, serde_json::to_value(&case).unwrap()));
+                    }
+                    acc.shape(&("ends", hi, lo, shape, size));
                 }
             }
         }
